@@ -460,7 +460,119 @@ fn query_cursor_load(b: &zoo::Built, lang_id: &str, seed: u64, info: &mut String
     }
 }
 
-fn near_queries(b: &zoo::Built, seed: u64, info: &mut String) {
+/// Does the query contain a parenthesised group whose direct children are all predicates `(#…)` (so that the
+/// group produces no step) and that is followed by a quantifier / capture or preceded by `field:`?  Such a
+/// query makes `ts_query__parse_pattern` index `steps[steps.size]` (finding C07-query-suffix-on-empty-pattern:
+/// assertion in this build, out-of-bounds access without assertions).  These queries are compiled in a CHILD
+/// process so that the finding is reported as such and the explorer goes on.
+fn empty_group_with_suffix(q: &str) -> bool {
+    let c: Vec<char> = q.chars().collect();
+    // positions of matching parentheses, string literals skipped
+    let mut stack: Vec<usize> = Vec::new();
+    let mut pairs: Vec<(usize, usize)> = Vec::new();
+    let mut i = 0;
+    while i < c.len() {
+        match c[i] {
+            '"' => {
+                i += 1;
+                while i < c.len() && c[i] != '"' {
+                    if c[i] == '\\' {
+                        i += 1;
+                    }
+                    i += 1;
+                }
+            }
+            '(' => stack.push(i),
+            ')' => {
+                if let Some(o) = stack.pop() {
+                    pairs.push((o, i));
+                }
+            }
+            _ => {}
+        }
+        i += 1;
+    }
+    for &(o, e) in &pairs {
+        // direct children: top-level groups inside (o, e)
+        let kids: Vec<&(usize, usize)> = pairs.iter().filter(|(a, b)| *a > o && *b < e && !pairs.iter().any(|(x, y)| *x > o && *y < e && *x < *a && *y > *b)).collect();
+        if kids.is_empty() {
+            continue;
+        }
+        let all_pred = kids.iter().all(|(a, _)| c.get(a + 1) == Some(&'#'));
+        // nothing but predicates and blanks directly inside
+        let mut only = all_pred;
+        let mut j = o + 1;
+        while only && j < e {
+            if let Some((_, b)) = kids.iter().find(|(a, _)| *a == j) {
+                j = b + 1;
+            } else {
+                if !c[j].is_whitespace() {
+                    only = false;
+                }
+                j += 1;
+            }
+        }
+        if !only {
+            continue;
+        }
+        let after = c[e + 1..].iter().find(|ch| !ch.is_whitespace());
+        let before = c[..o].iter().rev().find(|ch| !ch.is_whitespace());
+        if matches!(after, Some('+') | Some('*') | Some('?') | Some('@')) || before == Some(&':') {
+            return true;
+        }
+    }
+    false
+}
+
+/// `Query::new(lang, q)` in a child process: "ok", "err:<kind>" or "crash:<status>".
+fn probe_query(lang_id: &str, q: &str) -> String {
+    let o = Command::new(std::env::current_exe().unwrap()).arg("--query-probe").arg(lang_id).arg(hex(q.as_bytes())).stderr(Stdio::piped()).stdout(Stdio::piped()).output();
+    match o {
+        Ok(o) if o.status.success() => String::from_utf8_lossy(&o.stdout).trim().to_string(),
+        Ok(o) => {
+            let err = String::from_utf8_lossy(&o.stderr);
+            let site = err.lines().find(|l| l.contains("Assertion")).map(|l| l.split(':').nth(3).unwrap_or("?").trim().to_string()).unwrap_or_else(|| "no-assertion-message".into());
+            format!("crash:{}:{}", o.status, site).replace(' ', "_")
+        }
+        Err(e) => format!("spawn-failed:{e}").replace(' ', "_"),
+    }
+}
+
+const DELIMS: [char; 4] = ['(', ')', '[', ']'];
+
+/// All single-delimiter mutations of a query at delimiter position `k` (k-th of `( ) [ ]`): the three
+/// replacements, the deletion, and the four insertions in front of it.
+fn delimiter_mutations_at(q: &str, k: usize) -> Vec<String> {
+    let chars: Vec<char> = q.chars().collect();
+    let Some((pos, _)) = chars.iter().enumerate().filter(|(_, c)| DELIMS.contains(c)).nth(k) else { return Vec::new() };
+    let mut out = Vec::new();
+    for d in DELIMS {
+        if d != chars[pos] {
+            let mut c = chars.clone();
+            c[pos] = d;
+            out.push(c.iter().collect());
+        }
+        let mut c = chars.clone();
+        c.insert(pos, d);
+        out.push(c.iter().collect());
+    }
+    let mut c = chars.clone();
+    c.remove(pos);
+    out.push(c.iter().collect());
+    out
+}
+
+fn mutate_delimiter(rng: &mut Rng, q: &str) -> String {
+    let n = q.chars().filter(|c| DELIMS.contains(c)).count();
+    if n == 0 {
+        return q.to_string();
+    }
+    let ms = delimiter_mutations_at(q, rng.below(n));
+    if ms.is_empty() { q.to_string() } else { rng.pick(&ms).clone() }
+}
+
+fn near_queries(b: &zoo::Built, lang_id: &str, seed: u64, info: &mut String) {
+    let mut qcrash: Option<String> = None;
     let lang = &b.language;
     let mut rng = Rng::new(seed);
     let mut named: Vec<String> = Vec::new();
@@ -554,6 +666,11 @@ fn near_queries(b: &zoo::Built, seed: u64, info: &mut String) {
             }
             q = d;
         }
+        // delimiter mutations at a random position: replace one delimiter by another one, delete it, or
+        // insert a stray one (mismatched closers after captured / quantified children included)
+        if rng.chance(1, 3) {
+            q = mutate_delimiter(&mut rng, &q);
+        }
         // damaged syntax
         match rng.below(14) {
             0 if q.len() > 2 => {
@@ -569,6 +686,14 @@ fn near_queries(b: &zoo::Built, seed: u64, info: &mut String) {
         }
         if std::env::var("C07_TRACE_Q").is_ok() {
             eprintln!("query: {q}");
+        }
+        if empty_group_with_suffix(&q) {
+            let r = probe_query(lang_id, &q);
+            *counts.entry(format!("probed-{}", r.split(':').next().unwrap_or("?"))).or_insert(0) += 1;
+            if r.starts_with("crash") && qcrash.is_none() {
+                qcrash = Some(format!("{r}:{}", hex(q.as_bytes())));
+            }
+            continue;
         }
         let before = LIVE.load(Ordering::SeqCst);
         let res = Query::new(lang, &q);
@@ -600,11 +725,53 @@ fn near_queries(b: &zoo::Built, seed: u64, info: &mut String) {
             first_leak = Some((format!("{key}:{}", hex(q.as_bytes())), delta));
         }
     }
+    // systematic part: two decorated near-valid queries, EVERY delimiter position x every operator
+    let mut systematic = 0usize;
+    for _ in 0..2 {
+        let k = rng.pick(&named).clone();
+        let c = rng.pick(&named).clone();
+        let c2 = rng.pick(&named).clone();
+        let f = rng.pick(&fields).clone();
+        let base = match rng.below(4) {
+            0 => format!("[({k} {f}: ({c}) @a ({c2}) @b) ({c})] @p"),
+            1 => format!("({k} ({c}) @a [({c2}) @b ({c})]+ @l) @p"),
+            2 => format!("(({k} ({c})* @a) @x (#eq? @x \"s\"))"),
+            _ => format!("[({k} ({c}) @a) ({c2} {f}: ({c}) @b)]"),
+        };
+        let nd = base.chars().filter(|ch| DELIMS.contains(ch)).count();
+        for pos in 0..nd {
+            for m in delimiter_mutations_at(&base, pos) {
+                if empty_group_with_suffix(&m) {
+                    let r = probe_query(lang_id, &m);
+                    systematic += 1;
+                    *counts.entry(format!("probed-{}", r.split(':').next().unwrap_or("?"))).or_insert(0) += 1;
+                    if r.starts_with("crash") && qcrash.is_none() {
+                        qcrash = Some(format!("{r}:{}", hex(m.as_bytes())));
+                    }
+                    continue;
+                }
+                let before = LIVE.load(Ordering::SeqCst);
+                let res = Query::new(lang, &m);
+                let key = match &res { Ok(_) => "ok".to_string(), Err(e) => format!("{:?}", e.kind) };
+                drop(res);
+                systematic += 1;
+                let delta = LIVE.load(Ordering::SeqCst) - before;
+                *counts.entry(key.clone()).or_insert(0) += 1;
+                if delta != 0 && first_leak.is_none() {
+                    first_leak = Some((format!("{key}:{}", hex(m.as_bytes())), delta));
+                }
+            }
+        }
+    }
+    let n = n + systematic;
     *info = format!(
         " queries={n} qkinds={}{}",
         counts.iter().map(|(k, v)| format!("{k}:{v}")).collect::<Vec<_>>().join(","),
         first_leak.map(|(q, d)| format!(" leak={d}:{q}")).unwrap_or_default()
     );
+    if let Some(c) = qcrash {
+        info.push_str(&format!(" qcrash={c}"));
+    }
 }
 
 /// Number of live external-scanner instances of a zoo scanner that exports `tree_sitter_<name>_scanner_live`
@@ -722,7 +889,26 @@ fn transitions(b: &zoo::Built, lang_id: &str, other: &Language, seed: u64, info:
 
 fn history(kind: &str, lang_id: &str, b: &zoo::Built, seed: u64, thorough: bool, dump: &mut Option<String>, info: &mut String) {
     if kind == "nearquery" {
-        near_queries(b, seed, info);
+        near_queries(b, lang_id, seed, info);
+        return;
+    }
+    if kind == "qprobe" {
+        // seed = index into the fixed list of shapes of finding C07-query-suffix-on-empty-pattern
+        let shapes = ["((#set! a b)) @c", "((#set! a b))?", "(_ f: ((#set! a b)))", "[((#set! a b))] @c", "(_ ((#eq? @x \"(\")) @c)"];
+        let q = shapes[(seed as usize) % shapes.len()].to_string();
+        let q = if q.contains(" f: ") {
+            match b.language.field_name_for_id(1) {
+                Some(f) => q.replace(" f: ", &format!(" {f}: ")),
+                None => return,
+            }
+        } else {
+            q
+        };
+        let r = probe_query(lang_id, &q);
+        info.push_str(&format!(" queries=1 qkinds=probed-{}:1", r.split(':').next().unwrap_or("?")));
+        if r.starts_with("crash") {
+            info.push_str(&format!(" qcrash={r}:{}", hex(q.as_bytes())));
+        }
         return;
     }
     if kind == "qcursor" {
@@ -1340,6 +1526,15 @@ fn main() {
         tree_sitter::set_allocator(Some(tree_sitter::Allocator { malloc: c_malloc, calloc: c_calloc, realloc: c_realloc, free: c_free }));
     }
     let args: Vec<String> = std::env::args().collect();
+    if args.get(1).map(|s| s == "--query-probe").unwrap_or(false) {
+        let b = zoo::load(&args[2]).expect("language");
+        let q = String::from_utf8_lossy(&unhex(&args[3])).into_owned();
+        match Query::new(&b.language, &q) {
+            Ok(_) => println!("ok"),
+            Err(e) => println!("err:{:?}", e.kind),
+        }
+        return;
+    }
     let out_path = args.get(1).expect("usage: c07 <ops-file> <cunit-exe> [--spec file]").clone();
     let cunit = args.get(2).expect("cunit exe").clone();
     let mut out = std::io::BufWriter::new(std::fs::File::create(&out_path).unwrap());
